@@ -17,6 +17,16 @@ What each public operation of qlasskit *reads and writes*, taken from the code:
   (quirk `groverMutatesOracle`).
 * `DeutschJozsa / Simon / BernsteinVazirani.__init__` – only read `f.circuit()`.
 * `QCircuit.copy` – writes the private cache `__native := None` (not observable, modelled).
+* `qlassfun.py: UnboundQlassf` – `qlassf` on a source with `Parameter[...]` arguments keeps the
+  parsed function (`fun_ast`) and the closure `_do_translate`, which holds the definitions
+  (`defs=`: the deep copies made by `to_logicfun`) as they were at that moment.  `bind` deep-copies
+  the tree, injects the values and translates with those same definitions: the result is a function
+  of (program, values, definitions); the unbound object is only read.  The bound source is run by
+  `exec(c, globals(), ns)`: its `original_f` sees the library module's globals but not the
+  callables of the definitions (quirk `bindOrigWithoutDefs`).
+* `QlassF.from_function` on a string: `exec(f, ns)` with `ns` = module globals overlaid by the callables
+  of the definitions; a definition called like a type in the annotations shadows it (quirk
+  `defShadowsAnnotation`).
 * `export`, `decompile`, `truth_table`, `repr` – read only.
 * mutable default arguments (`types=[]`, `defs=[]`, `res=[]`, `sections=[]`): never written by the
   code on any path; modelled as the component `defaults` that no operation touches.
@@ -130,6 +140,16 @@ inductive OTree where
   | node (src : Src) (kids : List OTree)
   deriving Repr, Inhabited
 
+/-- what `qlassf(..., defs=[d])` takes from a definition: the deep copy made by `to_logicfun`
+(name + args/returns/expressions) and, in the repaired code, its `original_f` -/
+structure DefView where
+  name : String
+  sig : String
+  orig : OTree
+  deriving Repr, Inhabited
+
+def defKey (d : DefView) : String := "|" ++ d.name ++ "#" ++ d.sig
+
 /-- what the compile oracle returns for one (source, definitions) key -/
 structure Compiled where
   sig : String              -- hash of (args, returns, expressions)
@@ -167,7 +187,7 @@ structure Alg where
 inductive Obj where
   | dead                    -- the operation raised / produced nothing that lives on
   | qf (q : QF)
-  | unbound (i : Nat)
+  | unbound (i : Nat) (defs : List DefView)   -- program `i` + the definitions its closure holds
   | alg (a : Alg)
   deriving Repr, Inhabited
 
@@ -242,20 +262,18 @@ def resolve (P : Pool) (ns : List (String × Src)) : Nat → Src → OTree
       | some s' => resolve P ns fuel s'
       | none => .missing c))
 
-/-- what `qlassf(..., defs=[d])` takes from a definition: the deep copy made by `to_logicfun`
-(name + args/returns/expressions) and, in the repaired code, its `original_f` -/
-structure DefView where
-  name : String
-  sig : String
-  orig : OTree
-  deriving Repr, Inhabited
-
 /-- the repaired binding: free names are the `original_f` of the definitions passed -/
 def bindOrig (P : Pool) (s : Src) (defs : List DefView) : OTree :=
   .node s ((s.callees P).map (fun c =>
     match defs.find? (fun d => d.name == c) with
     | some d => d.orig
     | none => .missing c))
+
+/-- `original_f` of a bound function: the repaired code runs the bound source with the callables of
+the definitions visible; the code as it is runs it in the module globals only, so every callee is a
+free name there -/
+def boundOrig (q : Quirks) (P : Pool) (s : Src) (defs : List DefView) : OTree :=
+  if q.bindOrigWithoutDefs then .node s ((s.callees P).map .missing) else bindOrig P s defs
 
 def callDepth : Nat := 8
 
@@ -291,14 +309,14 @@ def QF.fp (q : Quirks) (P : Pool) (ns : List (String × Src)) (f : QF) : QFFp :=
 inductive Fp where
   | dead
   | qf (f : QFFp)
-  | unbound (i : Nat)
+  | unbound (i : Nat) (defKeys : List String)
   | alg (kind : String) (circ : Circ) (outq : List Nat) (sub : Nat) (own : Option QFFp)
   deriving Repr, Inhabited
 
 def Obj.fp (q : Quirks) (P : Pool) (ns : List (String × Src)) : Obj → Fp
   | .dead => .dead
   | .qf f => .qf (f.fp q P ns)
-  | .unbound i => .unbound i
+  | .unbound i defs => .unbound i (defs.map defKey)
   | .alg a => .alg a.kind a.circ a.outq a.sub (a.own.map (QF.fp q P ns))
 
 /-- fingerprint of the object in slot `r` -/
@@ -319,22 +337,27 @@ def QF.view (f : QF) : DefView := { name := f.name, sig := f.info.sig, orig := f
 /-- the definition in slot `r`, as `to_logicfun` sees it -/
 def defView (s : ApiState) (r : Nat) : Option DefView := (getQF s r).map QF.view
 
-def defKey (d : DefView) : String := "|" ++ d.name ++ "#" ++ d.sig
-
 /-- the locals of `from_function` that `eval(name)` finds before the module globals -/
 def evalHitsLocal (q : Quirks) (name : String) : Bool :=
   q.evalSeesLocals && Gen.fromFunctionLocalsAtEval.contains name
+
+/-- `ns = dict(globals()); ns.update(def_originals); exec(f, ns)`: a definition named like a global the
+annotations of the source mention (all of them subscripted types in the pool: `Qint[2]`, `Qlist[...]`) is what the
+annotation finds, and subscripting a function raises before anything is translated -/
+def defShadows (q : Quirks) (annots : List String) (defs : List DefView) : Bool :=
+  q.defShadowsAnnotation && defs.any (fun d => annots.contains d.name)
 
 /-- `QlassF.from_function(src_text, defs=defs)` on a string, after the caller's own reads -/
 def fromFunction (q : Quirks) (P : Pool) (K : Oracle) (s : ApiState) (src : Src) (key : String)
     (annots : List String) (params : Bool) (defs : List DefView) : ApiState × Tri Obj :=
   if collides q s.ns (readsFromFunctionPre annots) then (s, .raised)
+  else if defShadows q annots defs then (s, .raised)
   else
     let name := src.name P
     let s1 := { s with ns := nsWrite q s.ns name src }
     if collides q s1.ns (readsFromFunctionPost params) then (s1, .raised)
     else if params then
-      (s1, match src with | .pool i => .val (.unbound i) | _ => .raised)
+      (s1, match src with | .pool i => .val (.unbound i defs) | _ => .raised)
     else
       match K key with
       | none => (s1, .unknown)
@@ -432,7 +455,7 @@ def stepCore (q : Quirks) (P : Pool) (K : Oracle) (s : ApiState) : Op → ApiSta
           -- nothing is exec'd; `original_f` is the callable itself
           if collides q s.ns (["ast", "isinstance", "str", "inspect"] ++ readsFromFunctionPost p.params) then
             (s, .raised)
-          else if p.params then (s, .val (.unbound i))
+          else if p.params then (s, .val (.unbound i defs))
           else match K key with
             | none => (s, .unknown)
             | some none => (s, .raised)
@@ -441,14 +464,14 @@ def stepCore (q : Quirks) (P : Pool) (K : Oracle) (s : ApiState) : Op → ApiSta
         else fromFunction q P K s (.pool i) key p.annots p.params defs
   | .bind r pkey =>
     match s.objs.getD r .dead with
-    | .unbound i =>
+    | .unbound i defs =>
       if collides q s.ns readsBind then (s, .raised)
-      else match K (s!"B{i}|" ++ pkey) with
+      else match K (s!"B{i}|" ++ pkey ++ String.join (defs.map defKey)) with
         | none => (s, .unknown)
         | some none => (s, .raised)
         | some (some c) =>
           (s, .val (.qf { name := (P.prog i).name, info := c, src := .bound i pkey,
-                          orig := .node (.bound i pkey) [] }))
+                          orig := boundOrig q P (.bound i pkey) defs }))
     | _ => (s, .raised)
   | .oraclize r elem =>
     match getQF s r with
@@ -491,7 +514,7 @@ def stepCore (q : Quirks) (P : Pool) (K : Oracle) (s : ApiState) : Op → ApiSta
   | .readOnly kind r =>
     match s.objs.getD r .dead with
     | .dead => (s, .raised)
-    | .unbound _ => (s, .raised)
+    | .unbound _ _ => (s, .raised)
     | .qf f =>
       if kind == "truth_table" && collides q s.ns readsTruthTable then (s, .raised)
       else if kind == "repr" && collides q s.ns readsRepr then (s, .raised)
@@ -514,12 +537,14 @@ def close (r : ApiState × Tri Obj) : ApiState × Result :=
 def step (q : Quirks) (P : Pool) (K : Oracle) (s : ApiState) (op : Op) : ApiState × Result :=
   close (stepCore q P K s op)
 
-/-- does the operation run into `groverMutatesOracle` / `oraclizeRenames` in state `s`? -/
+/-- does the operation run into `groverMutatesOracle` / `oraclizeRenames` / `bindOrigWithoutDefs`
+in state `s`? -/
 def opTrigger (q : Quirks) (s : ApiState) : Op → Bool
   | .grover r elem _ =>
     q.groverMutatesOracle ||
     (q.oraclizeRenames && elem.isSome && ((getQF s r).map (·.name)) == some "oracle")
   | .oraclize r _ => q.oraclizeRenames && ((getQF s r).map (·.name)) == some "oracle"
+  | .bind _ _ => q.bindOrigWithoutDefs
   | _ => false
 
 /-- a whole history -/
